@@ -8,6 +8,7 @@
 From Coq Require Import Reals List Bool String.
 From Verif Require Import Base.Num Base.Vec Base.VecR C11.Model C11.Proofs.
 From Verif Require Import C11.Syntax C11.Interp Gen.Solvers C11.GenProofs.
+From Verif Require Import C11.SyntaxL C11.InterpL Gen.SolversL C11.SweepProofs C11.SweepDR.
 Import ListNotations.
 Local Open Scope R_scope.
 Notation length := List.length.
@@ -116,6 +117,29 @@ Theorem resume_exact_prox_dca :
   = iter m (prox_dca_step gradg proxf gamma) (iter n (prox_dca_step gradg proxf gamma) x).
 Proof. exact prox_dca_resume. Qed.
 Print Assumptions resume_exact_prox_dca.
+
+(* accelerated pdhg (gamma_primal / gamma_dual): resumption is exact when, besides x_relax and y, the
+   step sizes reached by the first call are passed to the second one: (tau, sigma, x, x_relax, y) is
+   the whole state (theta is recomputed before its use).  acc is the scalar update of one iteration. *)
+Theorem resume_exact_pdhg_accelerated :
+  forall (L Ladj : list R -> list R) (proxp proxd : R -> list R -> list R) (acc : R * R -> R * (R * R))
+         (n m : nat) (ts : R * R) (st : pdhg_st),
+  pdhg_acc_iter L Ladj proxp proxd acc (n + m) ts st
+  = let '(ts1, st1) := pdhg_acc_iter L Ladj proxp proxd acc n ts st in
+    pdhg_acc_iter L Ladj proxp proxd acc m ts1 st1.
+Proof. exact pdhg_acc_resume. Qed.
+Print Assumptions resume_exact_pdhg_accelerated.
+(* ... and this recursive form is the counter-indexed model of gen_pdhg_accelerated_is_model *)
+Theorem pdhg_accelerated_forms_agree :
+  forall (L Ladj : list R -> list R) (proxp proxd : R -> list R -> list R) (acc : R * R -> R * (R * R))
+         (n k0 : nat) (ts0 ts : R * R) (st : pdhg_st),
+  ts = acc_steps acc k0 ts0 ->
+  pdhg_acc_iter L Ladj proxp proxd acc n ts st
+  = (acc_steps acc (k0 + n) ts0,
+     iterk n k0 (fun k => let tk := acc_steps acc k ts0 in
+                          pdhg_step L Ladj (proxp (fst tk)) (proxd (snd tk)) (fst tk) (snd tk) (fst (acc tk))) st).
+Proof. exact (fun L Ladj proxp proxd acc n => pdhg_acc_iter_iterk L Ladj proxp proxd acc n). Qed.
+Print Assumptions pdhg_accelerated_forms_agree.
 
 (* steepest descent with ConstantLineSearch, tolerance test and projection: the
    second call starts with a fresh "not returned yet" flag and still ends at
@@ -592,6 +616,152 @@ Example gen_adupdates_two_operators_shared_temporary :
   /\ proj_state (run_outer stepsize o0 o1 junk (fun _ => "tmp#0") adupdates_simple_outer (heap_shared x d0 d1 t))
      = Some (Some xf, nth_error ds 0, nth_error ds 1, []).
 Proof. exact gen_adup2_shared. Qed.
+Local Close Scope string_scope.
+
+(* =========== 5. list solvers regenerated WITH their preambles (Gen/SolversL.v) ===========
+   [lrun I rkey nops nkeys pre body niter s0] (C11/InterpL.v): objects have structured identities;
+   a list comprehension that creates objects yields nops NEW objects OList name j, the dict
+   comprehension one NEW object ODict name k per distinct range; rkey j is the range class of
+   operator j.  [s_init x]: the caller passes x.  Every number of operators, every assignment of
+   operators to temporaries, every niter. *)
+Local Open Scope string_scope.
+
+(* the two regenerated adupdates programs, preambles included: niter callbacks, and the k-th
+   callback of adupdates is what adupdates_simple run with niter = k+1 leaves in the caller's x *)
+Theorem gen_adupdates_equals_simple_all_n :
+  forall (stepsize : R) (junk : string -> list R) (dflt : @adop R) (ops : list (@adop R)),
+  (forall j, (j < length ops)%nat -> ad_inner_v (nth j ops dflt) = None) ->
+  forall (nkeys niter k : nat) (x : list R),
+  (forall j, (j < length ops)%nat -> (ad_key (nth j ops dflt) < nkeys)%nat) -> (k < niter)%nat ->
+  let I := adI stepsize junk dflt ops in let rkey := adkey dflt ops in
+  exists so sr,
+    lrun I rkey (length ops) nkeys adupdates_lpre adupdates_lbody niter (s_init x) = Some so
+    /\ lrun I rkey (length ops) nkeys adupdates_simple_lpre adupdates_simple_lbody (S k) (s_init x) = Some sr
+    /\ length (l_log so) = niter
+    /\ nth_error (l_log so) k = hget (l_heap sr) (OCaller "x").
+Proof. exact gen_adupdates_equiv. Qed.
+Print Assumptions gen_adupdates_equals_simple_all_n.
+
+(* ... and each of them computes the model (log = model trace, caller's x = model iterate) *)
+Theorem gen_adupdates_whole_call_is_model :
+  forall (stepsize : R) (junk : string -> list R) (dflt : @adop R) (ops : list (@adop R)),
+  (forall j, (j < length ops)%nat -> ad_inner_v (nth j ops dflt) = None) ->
+  forall (nkeys niter : nat) (x : list R),
+  (forall j, (j < length ops)%nat -> (ad_key (nth j ops dflt) < nkeys)%nat) ->
+  let I := adI stepsize junk dflt ops in let rkey := adkey dflt ops in
+  (exists s, lrun I rkey (length ops) nkeys adupdates_lpre adupdates_lbody niter (s_init x) = Some s
+     /\ l_log s = ad_opt_trace stepsize ops niter (repeat (junk "tmp_rans") nkeys) x
+     /\ hget (l_heap s) (OCaller "x")
+        = Some (fst (fst (iter niter (ad_opt_step stepsize ops) (x, ad_duals0 ops, repeat (junk "tmp_rans") nkeys)))))
+  /\ (exists s, lrun I rkey (length ops) nkeys adupdates_simple_lpre adupdates_simple_lbody niter (s_init x) = Some s
+     /\ l_log s = [] /\ hget (l_heap s) (OCaller "x") = Some (ad_ref_run stepsize ops niter x)).
+Proof.
+  exact (fun stepsize junk dflt ops Hs nkeys niter x Hk =>
+    conj (gen_adupdates_run stepsize junk dflt ops Hs nkeys niter x Hk)
+         (gen_adupdates_simple_run stepsize junk dflt ops Hs nkeys niter x)).
+Qed.
+Print Assumptions gen_adupdates_whole_call_is_model.
+
+(* kaczmarz (fixed order), preamble included: the caller passes x and the list rhs; tmp_rans gets one
+   new object per range class, tmp_dom is a new object; the log is the model trace and the caller's x
+   the model iterate -- for every number of operators and every sharing pattern rkey *)
+Theorem gen_kaczmarz_whole_call_is_model :
+  forall (proj : list R -> list R) (junk : string -> list R) (dflt : @kzop R) (ops : list (@kzop R))
+         (rkey : nat -> nat) (nkeys : nat),
+  (forall j, (j < length ops)%nat -> (rkey j < nkeys)%nat) ->
+  forall (niter : nat) (x : list R),
+  exists s, lrun (kzI proj junk dflt ops) rkey (length ops) nkeys kaczmarz_lpre kaczmarz_lbody niter
+              (kz_init dflt ops x) = Some s
+    /\ l_log s = trace (fun x => x) niter (kz_step proj ops) x
+    /\ hget (l_heap s) (OCaller "x") = Some (iter niter (kz_step proj ops) x).
+Proof. exact gen_kaczmarz_run. Qed.
+Print Assumptions gen_kaczmarz_whole_call_is_model.
+
+(* osmlem with default sensitivities, preamble included (data copied into new objects, sensitivities
+   computed, one new temporary per operator): one callback per sub-iteration *)
+Theorem gen_osmlem_whole_call_is_model :
+  forall (eps : R) (junk : string -> list R) (dflt : @emop R) (ops : list (@emop R)) (mdim : nat -> nat),
+  (forall j, (j < length ops)%nat ->
+     em_sens (nth j ops dflt) = em_default_sens eps (em_Aadj (nth j ops dflt)) (mdim j)) ->
+  forall (niter : nat) (x : list R),
+  exists s, lrun (emI eps junk dflt ops mdim) (fun _ => 0%nat) (length ops) 0 osmlem_lpre osmlem_lbody niter
+              (em_init dflt ops x) = Some s
+    /\ l_log s = em_trace eps ops niter x
+    /\ hget (l_heap s) (OCaller "x") = Some (iter niter (em_step eps ops) x).
+Proof. exact gen_osmlem_run. Qed.
+Print Assumptions gen_osmlem_whole_call_is_model.
+
+(* ---- random=True: the permutation drawn in outer iteration k is a parameter  order k  (any list of
+   operator indices); both programs are run under the same stream of permutations ---- *)
+Theorem adupdates_random_opt_refines_ref :
+  forall (stepsize : R) (ops : list (@adop R)) (dflt : @adop R) (order : nat -> list nat),
+  (forall k j, In j (order k) -> (j < length ops)%nat) ->
+  forall (n k0 : nat) (x : list R) (duals tmps : list (list R)),
+  (forall j, (j < length ops)%nat -> (ad_key (nth j ops dflt) < length tmps)%nat) ->
+  fst (iterk n k0 (fun k => ad_opt_step_ord stepsize ops dflt (order k)) (x, duals, tmps))
+  = iterk n k0 (fun k => ad_ref_step_ord stepsize ops dflt (order k)) (x, duals).
+Proof. exact ad_ord_refines. Qed.
+Print Assumptions adupdates_random_opt_refines_ref.
+
+Theorem resume_exact_kaczmarz_random :     (* the second call continues the permutation stream *)
+  forall (proj : list R -> list R) (ops : list (@kzop R)) (dflt : @kzop R) (order : nat -> list nat) (n m : nat) (x : list R),
+  iterk (n + m) 0 (fun k => kz_step_ord proj ops dflt (order k)) x
+  = iterk m 0 (fun k => kz_step_ord proj ops dflt (order (n + k)%nat))
+      (iterk n 0 (fun k => kz_step_ord proj ops dflt (order k)) x).
+Proof. exact kz_ord_resume. Qed.
+Print Assumptions resume_exact_kaczmarz_random.
+
+(* the regenerated random-order programs (preambles included), every number of operators *)
+Theorem gen_adupdates_random_equals_simple_all_n :
+  forall (stepsize : R) (junk : string -> list R) (dflt : @adop R) (ops : list (@adop R)),
+  (forall j, (j < length ops)%nat -> ad_inner_v (nth j ops dflt) = None) ->
+  forall (order : nat -> list nat), (forall k j, In j (order k) -> (j < length ops)%nat) ->
+  forall (nkeys niter : nat) (x : list R),
+  (forall j, (j < length ops)%nat -> (ad_key (nth j ops dflt) < nkeys)%nat) ->
+  let I := adI stepsize junk dflt ops in let rkey := adkey dflt ops in
+  exists s0 s0' so sr,
+    pexec I rkey (length ops) nkeys adupdates_random_lpre (s_init x) = Some s0
+    /\ literk niter 0 (fun k => litems_ord I rkey (length ops) (order k) adupdates_random_lbody) s0 = Some so
+    /\ pexec I rkey (length ops) nkeys adupdates_simple_random_lpre (s_init x) = Some s0'
+    /\ literk niter 0 (fun k => litems_ord I rkey (length ops) (order k) adupdates_simple_random_lbody) s0' = Some sr
+    /\ length (l_log so) = niter
+    /\ hget (l_heap so) (OCaller "x") = hget (l_heap sr) (OCaller "x").
+Proof. exact gen_adupdates_random_equiv. Qed.
+Print Assumptions gen_adupdates_random_equals_simple_all_n.
+
+Theorem gen_kaczmarz_random_whole_call_is_model :
+  forall (proj : list R -> list R) (junk : string -> list R) (dflt : @kzop R) (ops : list (@kzop R))
+         (rkey : nat -> nat) (nkeys : nat),
+  (forall j, (j < length ops)%nat -> (rkey j < nkeys)%nat) ->
+  forall (order : nat -> list nat), (forall k j, In j (order k) -> (j < length ops)%nat) ->
+  forall (niter : nat) (x : list R),
+  let I := kzI proj junk dflt ops in
+  exists s0 s, pexec I rkey (length ops) nkeys kaczmarz_random_lpre (kz_init dflt ops x) = Some s0
+    /\ literk niter 0 (fun k => litems_ord I rkey (length ops) (order k) kaczmarz_random_lbody) s0 = Some s
+    /\ l_log s = tracek (fun x => x) niter 0 (fun k => kz_step_ord proj ops dflt (order k)) x
+    /\ hget (l_heap s) (OCaller "x") = Some (iterk niter 0 (fun k => kz_step_ord proj ops dflt (order k)) x).
+Proof. exact gen_kaczmarz_random_run. Qed.
+Print Assumptions gen_kaczmarz_random_whole_call_is_model.
+
+(* douglas_rachford_pd regenerated with its preamble (>= 1 operators, l = None, niter >= 1): v, p2, w2
+   are lists of NEW zero objects, z2 one new object per range class, p1, z1, w1 new objects; the main
+   loop runs niter - 1 full iterations and a last one that returns after x.assign(p1) (dr_gen_loop).
+   The callback log is the model trace and the caller's x ends as the model's returned iterate, for
+   every number of operators and every relaxation sequence lam. *)
+Theorem gen_douglas_rachford_whole_call_is_model :
+  forall (proxf : list R -> list R) (tau : R) (lam : nat -> R) (junk : string -> list R) (dflt : @drop R) (xdim : nat)
+         (ops : list (@drop R)),
+  (forall j, (j < length ops)%nat -> dr_proxl (nth j ops dflt) = None) ->
+  forall (rkey : nat -> nat) (nkeys : nat), (forall j, (j < length ops)%nat -> (rkey j < nkeys)%nat) ->
+  (1 <= length ops)%nat ->
+  forall (niter : nat) (x : list R), (1 <= niter)%nat ->
+  exists s0 s,
+    pexec (drI proxf tau lam junk dflt xdim ops 0) rkey (length ops) nkeys douglas_rachford_pd_lpre (s_init x) = Some s0
+    /\ dr_gen_loop proxf tau lam junk dflt xdim ops rkey niter 0 s0 = Some s
+    /\ l_log s = dr_trace proxf tau lam ops niter 0 (dr_init ops x)
+    /\ hget (l_heap s) (OCaller "x") = Some (dr_run proxf tau lam ops niter x).
+Proof. exact gen_dr_run. Qed.
+Print Assumptions gen_douglas_rachford_whole_call_is_model.
 Local Close Scope string_scope.
 
 (* ------------------------------------------------------------ non-vacuity *)
